@@ -178,9 +178,14 @@ def operand_text(body, op, depth=0):
     key = None
     from mir import _place_key
     if _place_key(pl) in body.upvar_names:
-        return body.upvar_names[_place_key(pl)]
-    if l in body.names:
-        return ".".join([body.names[l]] + proj)
+        # a captured variable: rendered by its type (names of locals are not part of a key)
+        tys = [p.get("ty") for p in pl["p"] if isinstance(p, dict) and p.get("ty")]
+        return _ty_word(tys[-1] if tys else "captured")
+    if l in body.names and not (depth < 6 and _is_alias(body, l)):
+        # a user variable holding a value of its own: rendered by its type, so that renaming it changes nothing
+        if 1 <= l <= body.fn["arg_count"] and body.fn["kind"] == "fn":
+            return ".".join(["arg%d" % l] + proj)
+        return ".".join([_ty_word(body.locals[l]["ty"])] + proj)
     if depth < 6:
         ds = body.whole_defs(l)
         if len(ds) == 1:
@@ -213,6 +218,28 @@ def operand_text(body, op, depth=0):
     if 1 <= l <= body.fn["arg_count"]:
         return ".".join(["arg%d" % l] + proj)
     return ".".join(["_"] + proj) if proj else "_"
+
+
+def _ty_word(ty):
+    """`&mut std::ops::Range<usize>` -> `Range<usize>`"""
+    t = re.sub(r"^&(mut )?", "", ty or "?")
+    t = re.sub(r"'[a-z_]+ ?", "", t)
+    prev = None
+    while prev != t:
+        prev = t
+        t = re.sub(r"\b(?:[a-z_][a-z0-9_]*::)+", "", t)
+    return t[:40]
+
+
+def _is_alias(body, l):
+    """The local merely names another place (`let size = &mut self.size;`, `let x = y;`): follow it."""
+    ds = body.whole_defs(l)
+    if len(ds) != 1 or ds[0][0] != "stmt":
+        return False
+    rv = ds[0][3]["rv"]
+    if rv["k"] in ("ref", "rawptr"):
+        return True
+    return rv["k"] == "use" and rv["op"].get("k") in ("move", "copy")
 
 
 class Site:
@@ -464,6 +491,36 @@ def d_guard(site):
                             return "D-guard: place assigned %s(..) at %s:%d before the unwrap" % (var, body.fn["file"], st["line"])
     if o[0] == "agg" and o[2]["rv"].get("variant") in ("Some", "Ok"):
         return "D-guard: value is a literal %s(..)" % o[2]["rv"]["variant"]
+    # the value is built on several branches (an expanded `map`, a hand-written match): every branch that builds the
+    # failing variant is taken only on an edge that a dominating guard excludes
+    if o[0] == "multi" and site.operand.get("k") in ("move", "copy"):
+        good = {"some": ("Some",), "ok": ("Ok",), "err": ("Err",)}[want]
+        bad_blocks, n_good = [], 0
+        lit_ok = True
+        for d in body.whole_defs(o[1]):
+            if d[0] != "stmt" or d[3]["rv"]["k"] != "agg" or "variant" not in d[3]["rv"]:
+                lit_ok = False
+                break
+            if d[3]["rv"]["variant"] in good:
+                n_good += 1
+            else:
+                bad_blocks.append(d[1])
+        if lit_ok and n_good:
+            excluded = 0
+            for bb_ in bad_blocks:
+                ok_b = False
+                for (d, s_) in body.control_deps.get(bb_, ()):
+                    si = body.switch_info(d)
+                    if not si or si["kind"] != "discr" or si.get("adt") not in ("std::option::Option", "std::result::Result"):
+                        continue
+                    pids = _value_ids(body, {"k": "copy", "pl": si["place"]})
+                    for gids, kind, gd in _guard_value_edges(body, d):
+                        # the guard establishes the variant that the switch's other edge needs
+                        if (pids & gids) and kind in ("some", "ok"):
+                            ok_b = True
+                excluded += ok_b
+            if excluded == len(bad_blocks):
+                return "D-guard: the failing variant is built only on edges that a dominating test of the source value excludes"
     return None
 
 
@@ -481,12 +538,119 @@ def d_memlen(site):
     if not all(t == "usize" for t in tys):
         return None
     for o in ops:
-        if body.fold(o) is not None:
-            continue
-        e = symex(body, o)
-        if not _is_len_expr(e):
+        if not _is_len_value(body, o):
             return None
     return "D-memlen: sum of in-memory lengths in usize"
+
+
+_CTX = [None]
+_LENFN = {}
+
+
+def _is_len_value(body, o, depth=0, seen=None):
+    """The operand is an in-memory length: a constant, byte_len()/len()/..., a sum of such, a value that is one of
+    those on every branch that defines it, or the result of a crate function all of whose returns are such."""
+    if depth > 10:
+        return False
+    if body.fold(o) is not None:
+        return True
+    if _is_len_expr(symex(body, o)):
+        return True
+    if o.get("k") not in ("move", "copy"):
+        return False
+    pl = o["pl"]
+    proj = [p for p in pl["p"] if p != "deref"]
+    if proj and not (len(proj) == 1 and isinstance(proj[0], dict) and proj[0].get("f") == 0):
+        return False
+    seen = seen if seen is not None else set()
+    if pl["l"] in seen:
+        return True         # loop-carried accumulator: judged by its other definitions
+    seen.add(pl["l"])
+    ds = body.whole_defs(pl["l"])
+    if not ds:
+        return False
+    for d in ds:
+        if d[0] == "stmt":
+            rv = d[3]["rv"]
+            if rv["k"] == "use":
+                if not _is_len_value(body, rv["op"], depth + 1, seen):
+                    return False
+            elif rv["k"] == "bin" and rv["op"] in ("Add", "Mul"):
+                if not (_is_len_value(body, rv["a"], depth + 1, seen) and _is_len_value(body, rv["b"], depth + 1, seen)):
+                    return False
+            elif rv["k"] == "cast" and rv["ty"] == "usize":
+                continue
+            else:
+                return False
+        elif d[0] == "call":
+            t = d[2]
+            nm = callee_resolved(t) or ""
+            if MEMLEN_CALLS.search(nm):
+                continue
+            if not _len_fn(nm):
+                return False
+        else:
+            return False
+    return True
+
+
+def _len_fn(path):
+    """A crate function returning usize all of whose return values are in-memory lengths."""
+    ctx = _CTX[0]
+    if ctx is None:
+        return False
+    if path in _LENFN:
+        return _LENFN[path]
+    _LENFN[path] = False        # recursion guard
+    f = ctx.facts.fn(path)
+    if f is None or f.get("ret_ty") != "usize":
+        return False
+    b = ctx.world.body(path)
+    ok = True
+    n = 0
+    for i in sorted(b.reach):
+        for st in b.blocks[i]["stmts"]:
+            if st["k"] == "assign" and st["lhs"]["l"] == 0 and not st["lhs"]["p"]:
+                n += 1
+                rv = st["rv"]
+                if rv["k"] == "use":
+                    ok = ok and _is_len_value(b, rv["op"])
+                elif rv["k"] == "bin" and rv["op"] in ("Add", "Mul"):
+                    ok = ok and _is_len_value(b, rv["a"]) and _is_len_value(b, rv["b"])
+                else:
+                    ok = False
+        t = b.term(i)
+        if t["k"] == "call" and t["dest"]["l"] == 0 and not t["dest"]["p"]:
+            n += 1
+            nm = callee_resolved(t) or ""
+            ok = ok and (bool(MEMLEN_CALLS.search(nm)) or _len_fn(nm))
+    _LENFN[path] = ok and n > 0
+    return _LENFN[path]
+
+
+def d_lenfit(site):
+    """`VarSizeInt::try_from(len).unwrap()` where len is the in-memory length of a packet section that is being
+    encoded: the conversion fails only above 268 435 455 bytes, which is outside the domain of an encodable packet
+    (the standard's maximum packet size; C01 states the domain)."""
+    if site.kind != "unwrap" or site.term is None:
+        return None
+    body = site.body
+    o = body.origin(site.operand, through_calls=False)
+    if o[0] != "call":
+        return None
+    t = o[2]
+    c = t.get("callee") or {}
+    nm = callee_name(t) or ""
+    if not (nm.endswith("TryFrom::try_from") or nm.endswith("TryInto::try_into")):
+        return None
+    target = (c.get("self_ty") or "") + " " + " ".join(c.get("args") or []) + " " + (c.get("resolved") or "")
+    if "VarSizeInt" not in target or not t["ops"]:
+        return None
+    if _op_ty(body, t["ops"][0]) != "usize" or not _is_len_value(body, t["ops"][0]):
+        return None
+    if body.fn["file"].startswith("src/codec/") or body.fn["file"].startswith("src/core/"):
+        return "D-lenfit: VarSizeInt::try_from(in-memory length of the section being encoded) fails only above 268 435 455 bytes (outside the domain of an encodable packet)"
+    return None
 
 
 def _is_len_expr(e, depth=0):
@@ -707,14 +871,46 @@ def load_ledger():
         return json.load(fh)
 
 
+def panic_units(ctx, reach):
+    """The reachable code as analysis units: every reachable function in flattened form (helpers of its own layer,
+    awaited async helpers, combinator closures inlined), minus the functions that are covered by being inlined into
+    another unit. A site that a refactoring moves into a new private helper therefore stays in the same unit, next to
+    the guards that protect it."""
+    cache = ctx.__dict__.setdefault("_panic_units", None)
+    if cache is not None:
+        return cache
+    flats = {}
+    for p in sorted(reach):
+        raw = ctx.world.body(p)
+        if raw is None or not raw.fn["file"].startswith("src/"):
+            continue
+        # the layers whose code is control flow around effects (client, io) are looked at in flattened form; the codec
+        # and the primitives are straight-line decoders / encoders whose sites are discharged function by function
+        if ctx.layer(p) not in ("client", "io"):
+            flats[p] = raw
+            continue
+        try:
+            flats[p] = ctx.flat(raw)
+        except AnchorLost:
+            flats[p] = raw
+    covered = set()
+    for p, b in flats.items():
+        inl = set(b.fn.get("inlined", []))
+        inl |= {q[:-len("::{closure#0}")] for q in inl if q.endswith("::{closure#0}")}
+        covered |= (inl - {p})
+    units = [b for p, b in sorted(flats.items()) if p not in covered]
+    ctx.__dict__["_panic_units"] = units
+    return units
+
+
 def all_sites(ctx):
+    _CTX[0] = ctx
+    _LENFN.clear()
     reach = reachable_bodies(ctx)
     sites = []
     counters = {}       # ordinals are global per key text (closure numbers are normalised away)
-    for p in sorted(reach):
-        body = ctx.world.body(p)
-        if body is None or not body.fn["file"].startswith("src/"):
-            continue
+    for body in panic_units(ctx, reach):
+        p = body.path
         ctx.note(body)
         ss = enumerate_sites(ctx, body)
         for s_ in ss:
@@ -735,7 +931,7 @@ def discharge(ctx, site, ledger):
     r = d_derive(site)
     if r:
         return r
-    for f in (d_const, d_guard, d_memlen, d_len, d_cmp, d_quota):
+    for f in (d_const, d_guard, d_memlen, d_lenfit, d_len, d_cmp, d_quota):
         r = f(site)
         if r:
             return r
@@ -936,6 +1132,40 @@ def _variant_set(body, op, bb, adt, ctx):
     return cur
 
 
+def _scale_locals(b):
+    """Locals that are multiplied by the constant 128 on themselves (`mult *= 128`)."""
+    out = set()
+    for l in range(len(b.locals)):
+        for d in b.defs.get(l, []):
+            if d[0] != "stmt":
+                continue
+            rv = d[3]["rv"]
+            src = rv
+            if rv["k"] == "use" and rv["op"].get("k") in ("move", "copy"):
+                o = b.origin({"l": rv["op"]["pl"]["l"], "p": []}, through_calls=False)
+                if o[0] == "rv":
+                    src = o[2]["rv"]
+            if src["k"] == "bin" and src["op"] == "Mul" and b.fold(src["b"]) == 128 and src["a"].get("k") in ("move", "copy") and b.base_local(src["a"]) == l:
+                out.add(l)
+    return out
+
+
+def _mentions(b, o, locals_, depth=0):
+    """The operand is computed (through unnamed temporaries) from one of the given locals."""
+    if depth > 6 or o.get("k") not in ("move", "copy"):
+        return False
+    l = o["pl"]["l"]
+    if l in locals_:
+        return True
+    for d in b.whole_defs(l):
+        if d[0] == "stmt":
+            rv = d[3]["rv"]
+            for key in ("op", "a", "b"):
+                if isinstance(rv.get(key), dict) and _mentions(b, rv[key], locals_, depth + 1):
+                    return True
+    return False
+
+
 @rule("VARINT-GUARD", floor=3)
 def varint_guard(ctx):
     """In VarSizeInt::try_from(&[u8]) every overflow-checked multiplication / addition that involves the
@@ -947,11 +1177,11 @@ def varint_guard(ctx):
         if c["name"] == "MAX" and (c["self_ty"] or "").endswith("VarSizeInt"):
             mx = c["val"]
     out = []
-    mult_locals = {l for l, n in b.names.items() if n == "mult"}
+    mult_locals = _scale_locals(b)
     if not mult_locals or mx is None:
-        raise AnchorLost("`mult` / VarSizeInt::MAX in VarSizeInt::try_from(&[u8])")
+        raise AnchorLost("the running multiplier (a local multiplied by 128 on every iteration) / VarSizeInt::MAX in VarSizeInt::try_from(&[u8])")
     for s_ in enumerate_sites(ctx, b):
-        if s_.kind != "assert" or "mult" not in s_.what:
+        if s_.kind != "assert" or not any(o.get("k") in ("move", "copy") and (b.base_local(o) in mult_locals or any(a[0] == "local" and a[1] in mult_locals for a in b.atoms(o)) or _mentions(b, o, mult_locals)) for o in s_.extra.get("ops", [])):
             continue
         guarded = None
         for (d, e) in dominating_edges(b, s_.bb):
@@ -981,8 +1211,19 @@ def varint_err(ctx):
     length over the zero-padded read buffer: an error that a zero byte after a valid prefix could trigger would be
     mistaken for a malformed stream (premature end-of-stream)."""
     b = ctx.body(r"core::base_types::VarSizeInt as std::convert::TryFrom<&\[u8\]>>::try_from$")
-    mult_locals = {l for l, n in b.names.items() if n == "mult"}
-    idx_locals = {l for l, n in b.names.items() if n == "idx"}
+    mult_locals = _scale_locals(b)
+    # the index of the current byte: the first component of what Enumerate::next yields
+    idx_locals = set()
+    for l in range(len(b.locals)):
+        if b.locals[l]["ty"] != "usize":
+            continue
+        for d in b.whole_defs(l):
+            if d[0] == "stmt" and d[3]["rv"]["k"] == "use" and d[3]["rv"]["op"].get("k") in ("move", "copy"):
+                pl = d[3]["rv"]["op"]["pl"]
+                fs = [p["f"] for p in pl["p"] if isinstance(p, dict) and "f" in p]
+                if any(isinstance(p, dict) and p.get("dc") == "Some" for p in pl["p"]) and fs and fs[-1] == 0 and \
+                        any(a[0] == "call" and a[1].endswith("::next") for a in b.atoms({"l": pl["l"], "p": []})):
+                    idx_locals.add(l)
     out = []
     for i in sorted(b.reach):
         variants = set()
